@@ -397,14 +397,29 @@ class BulkOperationBuilder(object):
         if array_filters:
             raise_not_implemented(
                 'array_filters', 'Array filters are not implemented in mongomock yet.')
+        if collation:
+            raise_not_implemented(
+                'collation',
+                'The collation argument of bulk operations is valid but has not been implemented '
+                'in mongomock yet')
         write_operation = BulkWriteOperation(self, selector, is_upsert=upsert)
         write_operation.register_update_op(doc, multi, hint=hint)
 
     def add_replace(self, selector, doc, upsert, collation=None, hint=None):
+        if collation:
+            raise_not_implemented(
+                'collation',
+                'The collation argument of bulk operations is valid but has not been implemented '
+                'in mongomock yet')
         write_operation = BulkWriteOperation(self, selector, is_upsert=upsert)
         write_operation.replace_one(doc, hint=hint)
 
     def add_delete(self, selector, just_one, collation=None, hint=None):
+        if collation:
+            raise_not_implemented(
+                'collation',
+                'The collation argument of bulk operations is valid but has not been implemented '
+                'in mongomock yet')
         write_operation = BulkWriteOperation(self, selector, is_upsert=False)
         write_operation.register_remove_op(not just_one, hint=hint)
 
